@@ -225,7 +225,7 @@ def w_stages(arg):
         stages = obs["stages"]
         # in-line stage: expandtabs is what lies between the API input and the first hooked stage
         first = next((s for s in stages if s["stage"] == "rmspace.format_str"), None)
-        if first is not None and "skip_file" not in text:
+        if first is not None and "skip_file" not in text and not any(s["stage"] == "expandtabs" for s in stages):  # (a tree that calls it through outside_strings reports it as a stage itself)
             judge_stage("expandtabs", text, first["in"], res, case["id"], replay)
         for s in stages:
             if s["stage"] == "processing.minimize_whitespace_line_differences":
@@ -239,7 +239,10 @@ def w_stages(arg):
             import rmspace
 
             fixes, formatting, proc = m["fixes"], m["formatting"], m["processing"]
-            for name, fn in (("rmspace.format_str", lambda t: rmspace.format_str(t)), ("fixes.fix_too_many_blank_lines", fixes.fix_too_many_blank_lines),
+            # rmspace is a third-party function; pyrefact's stage is the way it calls it (through formatting.outside_strings where the tree has that)
+            strip = (lambda t: formatting.outside_strings(rmspace.format_str, t)) if hasattr(formatting, "outside_strings") else (lambda t: rmspace.format_str(t))
+            tabs = (lambda t: formatting.outside_strings(lambda u: u.expandtabs(4), t)) if hasattr(formatting, "outside_strings") else (lambda t: t.expandtabs(4))
+            for name, fn in (("rmspace.format_str", strip), ("expandtabs", tabs), ("fixes.fix_too_many_blank_lines", fixes.fix_too_many_blank_lines),
                              ("fixes.fix_import_spacing", fixes.fix_import_spacing),
                              ("fixes.fix_line_lengths", lambda t: fixes.fix_line_lengths(t, max_line_length=case.get("options", {}).get("max_line_length", 100))),
                              ("formatting.collapse_trailing_parentheses", formatting.collapse_trailing_parentheses)):
